@@ -209,6 +209,8 @@ func slotAgreement(c *Ctx, prop string, which map[string]bool) {
 					c.OK(R("coverage"), key, pe[si].pos, "read by "+tname+".String")
 				case excepted:
 					c.OK(R("coverage"), key, pe[si].pos, "exception: "+why)
+				case p.helperReadsField(str, f, 0):
+					c.OK(R("coverage"), key, pe[si].pos, "read by a helper method that "+tname+".String calls on the node")
 				default:
 					c.Bad(R("coverage"), key, pe[si].pos, "the parser stores "+qual+" but "+tname+".String never reads it: the clause is dropped when the statement is printed")
 				}
@@ -897,6 +899,56 @@ func floatExcluded(p *Program, str *types.Func, pos token.Pos, field string) boo
 			if hasFloat && mine != nil {
 				found = true
 			}
+		}
+		return true
+	})
+	return found
+}
+
+// helperReadsField: fn calls, on its own receiver, an in-package method whose
+// body (or a method it calls the same way) reads the receiver's field named f.
+func (p *Program) helperReadsField(fn *types.Func, f string, depth int) bool {
+	fd := p.FuncDecls[fn]
+	if depth > 3 || fd == nil || fd.Body == nil || fd.Recv == nil || len(fd.Recv.List) == 0 || len(fd.Recv.List[0].Names) == 0 {
+		return false
+	}
+	recv := p.Info.Defs[fd.Recv.List[0].Names[0]]
+	found := false
+	ast.Inspect(fd.Body, func(n ast.Node) bool {
+		if found {
+			return false
+		}
+		call, ok := n.(*ast.CallExpr)
+		if !ok {
+			return true
+		}
+		sel, ok := call.Fun.(*ast.SelectorExpr)
+		if !ok {
+			return true
+		}
+		id := identOf(sel.X)
+		if id == nil || p.Info.ObjectOf(id) != recv {
+			return true
+		}
+		callee, ok := p.Info.Uses[sel.Sel].(*types.Func)
+		if !ok || callee.Pkg() != p.Types || callee == fn {
+			return true
+		}
+		cd := p.FuncDecls[callee]
+		if cd == nil || cd.Body == nil || cd.Recv == nil || len(cd.Recv.List) == 0 || len(cd.Recv.List[0].Names) == 0 {
+			return true
+		}
+		crecv := p.Info.Defs[cd.Recv.List[0].Names[0]]
+		ast.Inspect(cd.Body, func(m ast.Node) bool {
+			if s2, ok := m.(*ast.SelectorExpr); ok && s2.Sel.Name == f {
+				if i2 := identOf(s2.X); i2 != nil && p.Info.ObjectOf(i2) == crecv {
+					found = true
+				}
+			}
+			return !found
+		})
+		if !found && p.helperReadsField(callee, f, depth+1) {
+			found = true
 		}
 		return true
 	})
